@@ -5,7 +5,7 @@ From Coq Require Import List Bool Arith Lia Permutation.
 Import ListNotations.
 Require Import MV.Model.Orch MV.Model.OrchCheck MV.Model.Grouping MV.Model.PlannerA MV.Spec.PlannerASpec.
 Require Import MV.Proofs.OrchP MV.Proofs.OrchTermP MV.Proofs.PlannerASets MV.Proofs.PlannerAGraph.
-Require Import MV.Proofs.PlannerAQueue MV.Proofs.PlannerALevels MV.Proofs.PlannerAOrder MV.Proofs.PlannerAP MV.Proofs.PlannerADet.
+Require Import MV.Proofs.PlannerAQueue MV.Proofs.PlannerALevels MV.Proofs.PlannerAOrder MV.Proofs.PlanSimP MV.Proofs.PlannerAP MV.Proofs.PlannerADet.
 
 (* ---------- definitions by name ---------- *)
 Lemma def_of_In : forall defs x d, def_of defs x = Some d -> In d defs /\ dname d = x.
@@ -280,37 +280,57 @@ Proof.
   split; [exact Ha | exact (Hprod a Ha)].
 Qed.
 
-Theorem graph_terminates : forall ord g, ord_ok ord -> graph_ok g -> strict g -> group_dag g -> g <> [] ->
-  forall stream, exists n, n <= 2 * List.length (plan_of ord g) + 1 /\
-    loop_head (plan_of ord g) (run stream true (fun _ => false) (plan_of ord g) (repeat EScan n)) = ExitNormal.
+(* every ACCEPTED graph terminates: no hypothesis on the groups *)
+Theorem graph_terminates : forall ord g p, ord_ok ord -> graph_ok g -> strict g -> g <> [] ->
+  prepare_A ord g = Planned p ->
+  forall stream, exists n, n <= 2 * List.length p + 1 /\
+    loop_head p (run stream true (fun _ => false) p (repeat EScan n)) = ExitNormal.
 Proof.
-  intros ord g Hord Hok Hs Hdag Hne stream. destruct (plan_wf ord g Hord Hok Hs Hdag) as [order Hwf].
-  exact (terminates_sync order stream (plan_of ord g) (plan_nonempty ord g Hord Hok Hs Hne) Hwf).
+  intros ord g p Hord Hok Hs Hne Hacc stream. destruct (prepare_planned_inv ord g Hord Hok Hs p Hacc) as [E Hwf].
+  apply (terminates_sync (sim_order p) stream p); [|exact Hwf]. rewrite E. exact (plan_nonempty ord g Hord Hok Hs Hne).
 Qed.
 
 (* ---------- end to end, for requests ---------- *)
-(* g is the engine's feature graph for the request: request_graph up to dict / set orders (checked by the harness) *)
-Theorem requests_terminate : forall defs rq ord g, defs_ok defs rq -> defs_group_dag defs -> rq <> [] -> ord_ok ord ->
-  graph_equiv (request_graph defs rq) g ->
-  prepare_A ord g = Planned (plan_of ord g) /\
+(* g is the engine's feature graph for the request: request_graph up to dict / set orders (checked by the harness).
+   The request is either accepted or rejected with the cycle error (never the incomplete-plan error, never a transform
+   step); the decision and the plan are those of the request itself, whatever the orders *)
+Theorem requests_decided : forall defs rq ord g, defs_ok defs rq -> ord_ok ord -> graph_equiv (request_graph defs rq) g ->
+  (prepare_A ord g = Planned (plan_of ord g) \/ prepare_A ord g = RejectedCycle) /\
+  (prepare_A ord g = Planned (plan_of ord g) <->
+   prepare_A ord_id (request_graph defs rq) = Planned (plan_of ord_id (request_graph defs rq))) /\
   plan_equiv (plan_of ord_id (request_graph defs rq)) (plan_of ord g) /\
-  (forall stream, exists n, n <= 2 * List.length (plan_of ord g) + 1 /\
-     loop_head (plan_of ord g) (run stream true (fun _ => false) (plan_of ord g) (repeat EScan n)) = ExitNormal) /\
-  (forall stream inline fails es i fs ds,
-     In (i, (fs, ds)) (started (run stream inline fails (plan_of ord g) es)) ->
-     exists s, In s (plan_of ord g) /\ sid s = i /\
-       forall f a, In f (uuids s) -> anc g a f ->
-         In a fs /\ exists s', In s' (plan_of ord g) /\ In a (uuids s') /\ In (sid s') ds).
+  (defs_group_dag defs -> prepare_A ord g = Planned (plan_of ord g)).
 Proof.
-  intros defs rq ord g Hdefs Hdag Hne Hord Heq. destruct (request_graph_ok defs rq Hdefs) as [HokG HsG].
+  intros defs rq ord g Hdefs Hord Heq. destruct (request_graph_ok defs rq Hdefs) as [HokG HsG].
   pose proof (ge_graph_ok _ _ Heq HokG) as Hok. pose proof (ge_strict _ _ Heq HsG) as Hs.
   assert (Hid : ord_ok ord_id) by (intros k l; apply Permutation_refl).
-  split; [exact (prepare_accepts ord g Hord Hok Hs)|]. split; [exact (plan_deterministic ord_id ord _ g Hid Hord HokG HsG Heq)|]. split.
-  - apply (graph_terminates ord g Hord Hok Hs).
-    + exact (group_dag_equiv _ g Heq (proj1 HokG) (request_group_dag defs rq Hdefs Hdag)).
-    + intros E. subst g. destruct Heq as [g2 [Hp Hf]]. inversion Hf as [E2|]; subst. apply Permutation_sym, Permutation_nil in Hp.
-      exact (request_graph_nonempty defs rq Hdefs Hne Hp).
-  - exact (features_after_ancestors ord g Hord Hok Hs).
+  destruct (prepare_deterministic ord_id ord _ g Hid Hord HokG HsG Heq) as (D1 & _ & D3).
+  split; [exact (prepare_total ord g Hord Hok Hs)|]. split; [split; intros H; apply D1; exact H|]. split; [exact D3|].
+  intros Hdag. apply (prepare_accepts_dag ord g Hord Hok Hs).
+  exact (group_dag_equiv _ g Heq (proj1 HokG) (request_group_dag defs rq Hdefs Hdag)).
+Qed.
+
+(* every accepted request runs to completion and computes every feature after its ancestors *)
+Theorem requests_terminate : forall defs rq ord g p, defs_ok defs rq -> rq <> [] -> ord_ok ord ->
+  graph_equiv (request_graph defs rq) g -> prepare_A ord g = Planned p ->
+  p = plan_of ord g /\
+  (exists order, wf_plan order p = true) /\
+  (forall stream, exists n, n <= 2 * List.length p + 1 /\
+     loop_head p (run stream true (fun _ => false) p (repeat EScan n)) = ExitNormal) /\
+  (forall stream inline fails es i fs ds,
+     In (i, (fs, ds)) (started (run stream inline fails p es)) ->
+     exists s, In s p /\ sid s = i /\
+       forall f a, In f (uuids s) -> anc g a f ->
+         In a fs /\ exists s', In s' p /\ In a (uuids s') /\ In (sid s') ds).
+Proof.
+  intros defs rq ord g p Hdefs Hne Hord Heq Hacc. destruct (request_graph_ok defs rq Hdefs) as [HokG HsG].
+  pose proof (ge_graph_ok _ _ Heq HokG) as Hok. pose proof (ge_strict _ _ Heq HsG) as Hs.
+  destruct (prepare_planned_inv ord g Hord Hok Hs p Hacc) as [E Hwf].
+  split; [exact E|]. split; [exists (sim_order p); exact Hwf|]. split.
+  - apply (graph_terminates ord g p Hord Hok Hs); [|exact Hacc].
+    intros Eg. subst g. destruct Heq as [g2 [Hp Hf]]. inversion Hf as [E2|]; subst. apply Permutation_sym, Permutation_nil in Hp.
+    exact (request_graph_nonempty defs rq Hdefs Hne Hp).
+  - rewrite E. exact (features_after_ancestors ord g Hord Hok Hs).
 Qed.
 
 (* ---------- the decidable forms of the request hypotheses are sound ---------- *)
@@ -364,3 +384,16 @@ Proof.
   assert (H : defs_ok ex_defs ex_rq) by (apply defs_okb_sound; vm_compute; reflexivity).
   split; [exact H|]. apply defs_group_dagb_sound; [exact (proj1 H) | vm_compute; reflexivity].
 Qed.
+
+(* a request whose groups depend on each other cyclically (D1 = {f1, f2}, D2 = {g1}; f2 <- g1 <- f1 <- r) and which is
+   accepted nevertheless: f1 is an intra-group ancestor of f2, so D1 is split into two levels *)
+Definition ex2_defs : list fdef :=
+  [ {| dname := 0; dgrp := 0; dins := [];  dcfw := 1 |};
+    {| dname := 1; dgrp := 1; dins := [0]; dcfw := 1 |};
+    {| dname := 2; dgrp := 2; dins := [1]; dcfw := 1 |};
+    {| dname := 3; dgrp := 1; dins := [2]; dcfw := 1 |} ].
+Lemma ex2_accepted_l :
+  defs_okb ex2_defs [3] = true /\ defs_group_dagb ex2_defs = false /\ group_dagb (request_graph ex2_defs [3]) = false /\
+  prepare_A ord_id (request_graph ex2_defs [3]) = Planned (plan_of ord_id (request_graph ex2_defs [3])) /\
+  List.length (plan_of ord_id (request_graph ex2_defs [3])) = 4.
+Proof. vm_compute. repeat split; reflexivity. Qed.
